@@ -82,6 +82,7 @@ class Driver:
 
         self.step_count: int = 0
         self.max_steps: int = 0
+        self._initial_call_done: bool = False
 
         self.file_manager: Final = ObserverManager()
 
@@ -106,11 +107,13 @@ class Driver:
 
         self.max_steps = self.step_count + steps
 
-        if self.step_count == 0:
+        if self.step_count == 0 and not self._initial_call_done:
             if self.default_logger:
                 self.default_logger.write_header()
 
             self.call_observers()
+
+        self._initial_call_done = True
 
         while not self.converged():
             yield self.step()
